@@ -204,6 +204,6 @@ impl Consumer<'_> {
     /// reject deliveries across channels.
     #[inline]
     pub fn reject(&self, delivery: Delivery, requeue: bool) -> Result<()> {
-        self.channel.basic_reject(delivery, requeue)
+        delivery.reject(self.channel, requeue)
     }
 }
